@@ -413,7 +413,14 @@ func genValid(target string, seed uint32) []byte {
 			panic(err)
 		}
 		var buf bytes.Buffer
-		w, err := sam.NewWriter(&buf, sh, t.Pick("work", sam.FlagDecimal, sam.FlagHex, sam.FlagString))
+		// the library's reader cannot parse the string form of FLAG that its
+		// writer offers (every record then fails at column 2): mostly the
+		// numeric forms, and always decimal for the enumerated field edits
+		flagFmt := t.Pick("work", sam.FlagDecimal, sam.FlagHex, sam.FlagString, sam.FlagDecimal, sam.FlagHex, sam.FlagDecimal)
+		if seed == c11IdxSeed {
+			flagFmt = sam.FlagDecimal
+		}
+		w, err := sam.NewWriter(&buf, sh, flagFmt)
 		if err != nil {
 			panic(err)
 		}
